@@ -444,7 +444,12 @@ def instantiate(gen, hist, schname, mt):
             return None
         G = rng.choice(nested if need_n else groups)
         if need_n:
-            N = rng.choice([x for x in G.group if x.group is not None])
+            # an element without the nested group must be legal: if some element of the shape lacks it, it must be optional
+            lacks = any(e["N"] is None for e in sh["G"])
+            cand = [x for x in G.group if x.group is not None and not (lacks and x.required)]
+            if not cand:
+                return None
+            N = rng.choice(cand)
     sp = Spec(schname, mt, "tlc_shape")
     sp.abstract = sh
     budget = [MAXBYTES]
